@@ -244,8 +244,8 @@ inline Outcome runCliCase(const KV& c)
         if (s.empty())
             args.clear();
     }
-    const char* root = getenv("VERIF_BUILD_ROOT");
-    const std::string exe = std::string(root ? root : "/verif/build") + "/asan/gmgpolar_cli";
+    const char* root = getenv("VERIF_BUILD_ASAN");
+    const std::string exe = std::string(root ? root : "/verif/build/asan") + "/gmgpolar_cli";
     std::string errFile   = tmpBase() + "_cli_err.txt";
     fflush(nullptr);
     pid_t pid = fork();
